@@ -271,6 +271,7 @@ func (st *Store) handleNodePoints(msg *nats.Msg) {
 		return
 	}
 
+	verifEvent("store.afterNodeWrite", nodeID)
 	// process point in upstream nodes
 	err = st.processPointsUpstream(nodeID, nodeID, points)
 	if err != nil {
@@ -311,6 +312,7 @@ func (st *Store) handleEdgePoints(msg *nats.Msg) {
 		return
 	}
 
+	verifEvent("store.afterEdgeWrite", nodeID, parentID)
 	// process point in upstream nodes. We need to do this before writing
 	// to DB, otherwise the point will not be sent upstream
 	err = st.processEdgePointsUpstream(nodeID, nodeID, parentID, points)
